@@ -256,7 +256,8 @@ pub fn parse_complete<F: LemireFloat, const FORMAT: u128>(
         {
             return Err(Error::Empty(byte.cursor()));
         } else {
-            return Ok(F::ZERO);
+            // NOTE: the sign still applies: `-` is `-0.0`, like `-.` and `-0`.
+            return Ok(if is_negative { -F::ZERO } else { F::ZERO });
         }
     }
 
@@ -299,7 +300,8 @@ pub fn fast_path_complete<F: LemireFloat, const FORMAT: u128>(
         {
             return Err(Error::Empty(byte.cursor()));
         } else {
-            return Ok(F::ZERO);
+            // NOTE: the sign still applies: `-` is `-0.0`, like `-.` and `-0`.
+            return Ok(if is_negative { -F::ZERO } else { F::ZERO });
         }
     }
 
@@ -324,7 +326,8 @@ pub fn parse_partial<F: LemireFloat, const FORMAT: u128>(
         {
             return Err(Error::Empty(byte.cursor()));
         } else {
-            return Ok((F::ZERO, byte.cursor()));
+            // NOTE: the sign still applies: `-` is `-0.0`, like `-.` and `-0`.
+            return Ok((if is_negative { -F::ZERO } else { F::ZERO }, byte.cursor()));
         }
     }
 
@@ -373,7 +376,8 @@ pub fn fast_path_partial<F: LemireFloat, const FORMAT: u128>(
         {
             return Err(Error::Empty(byte.cursor()));
         } else {
-            return Ok((F::ZERO, byte.cursor()));
+            // NOTE: the sign still applies: `-` is `-0.0`, like `-.` and `-0`.
+            return Ok((if is_negative { -F::ZERO } else { F::ZERO }, byte.cursor()));
         }
     }
 
